@@ -1303,3 +1303,308 @@ Proof.
 Qed.
 
 End Sched.
+
+(* ================================================================== Build.build against any compatible order *)
+Definition result_of (b : bstate) : build_result :=
+  mkBR (b_world b) (b_cache b) (map rt_status (b_rt b)) (b_exec b)
+       (negb (existsb (fun st => match st with TFailed => true | _ => false end) (map rt_status (b_rt b)))).
+
+(* observably equal results: same statuses and exit status, the same commands started (as a multiset),
+   extensionally equal workspace, external conditions, target results, CAS and taints *)
+Record breq (r r' : build_result) : Prop := mkBreq {
+  bq_status : br_status r = br_status r';
+  bq_ok     : br_ok r = br_ok r';
+  bq_exec   : Permutation (br_exec r) (br_exec r');
+  bq_ws     : forall p, ws_get p (w_ws (br_world r)) = ws_get p (w_ws (br_world r'));
+  bq_ext    : forall l, label_in l (w_ext (br_world r)) = label_in l (w_ext (br_world r'));
+  bq_taint  : forall l, label_in l (c_taint (br_cache r)) = label_in l (c_taint (br_cache r'));
+  bq_res    : forall k, rlookup k (c_results (br_cache r)) = rlookup k (c_results (br_cache r'));
+  bq_cas    : forall d, alookup d (c_cas (br_cache r)) = alookup d (c_cas (br_cache r'))
+}.
+
+Lemma beq_breq b b' : beq b b' -> breq (result_of b) (result_of b').
+Proof.
+  intros [B1 B2 B3 B4 B5 B6 B7 B8]. unfold result_of. constructor; cbn [br_status br_ok br_exec br_world br_cache]; auto.
+  - rewrite B1. reflexivity.
+  - rewrite B1. reflexivity.
+Qed.
+
+Lemma build_result_of H cfg s roots w c :
+  build H cfg s roots w c =
+  result_of (runl H cfg s (selection s roots) (seq 0 (length (s_nodes s))) (build_init s w c)).
+Proof. reflexivity. Qed.
+
+Section BuildOrder.
+Variable H : str -> str.
+Hypothesis H_inj : forall a b, H a = H b -> a = b.
+Variables (cfg : config) (s : sources) (roots : list nat) (w : world) (c : cache).
+Hypothesis Hm : cfg_mode cfg = LAll.
+Hypothesis Hff : cfg_failfast cfg = false.
+Hypothesis HG : guards H s.
+Hypothesis Hwf : Build_c15_proofs.wf_src s.
+Hypothesis Hcc : cache_complete c.
+
+(* the build over the node list l *)
+Definition build_in_order (l : list nat) : build_result :=
+  result_of (runl H cfg s (selection s roots) l (build_init s w c)).
+
+Theorem build_is_any_topo_order l :
+  Permutation l (seq 0 (length (s_nodes s))) -> topo s l ->
+  breq (build H cfg s roots w c) (build_in_order l).
+Proof.
+  intros Hp Ht. rewrite build_result_of. apply beq_breq.
+  apply (topo_perm_beq H H_inj cfg s (selection s roots) Hm Hff HG); auto.
+  - apply Permutation_sym, Hp.
+  - apply topo_seq, Hwf.
+Qed.
+
+Corollary build_is_any_closed_order l :
+  Permutation l (seq 0 (length (s_nodes s))) -> dep_closed_order s l ->
+  breq (build H cfg s roots w c) (build_in_order l).
+Proof. intros Hp Hc. apply build_is_any_topo_order; [exact Hp | apply closed_topo, Hc]. Qed.
+
+End BuildOrder.
+
+(* ================================================================== a decidable guard for [keys_apart] *)
+(* no printed label is a prefix of another one: with an injective digest that never prints '_' (hex
+   digests) the keys of different targets differ whatever their dependencies hash to *)
+Definition labels_prefix_free (s : sources) : Prop :=
+  forall i j ti tj, i <> j -> node_at s i = Some (NTarget ti) -> node_at s j = Some (NTarget tj) ->
+    has_prefix (print_label (td_label ti)) (print_label (td_label tj)) = false.
+
+Lemma app_eq_prefix : forall (a a' r r' : str),
+  a ++ r = a' ++ r' -> has_prefix a a' = true \/ has_prefix a' a = true.
+Proof.
+  induction a as [|x a IH]; intros [|y a'] r r' E; cbn [has_prefix]; auto.
+  cbn [app] in E. inversion E; subst. rewrite Ascii.eqb_refl. cbn [andb]. eapply IH; eauto.
+Qed.
+
+Lemma keys_apart_prefix_free H s :
+  (forall x y, H x = H y -> x = y) -> (forall x, ~ In ch_us (H x)) ->
+  labels_prefix_free s -> keys_apart H s.
+Proof.
+  intros H_inj H_hex Hpf i j ti tj dh dh' Hne Hi Hj E. unfold pt_key in E.
+  apply (key_streams H H_inj H_hex) in E as [E _].
+  unfold encode_def, comps in E. cbn [concat state_of ts_label] in E.
+  apply app_eq_prefix in E as [E|E].
+  - rewrite (Hpf i j ti tj Hne Hi Hj) in E. discriminate.
+  - rewrite (Hpf j i tj ti (not_eq_sym Hne) Hj Hi) in E. discriminate.
+Qed.
+
+Lemma labels_distinct_prefix_free s : labels_prefix_free s -> labels_distinct s.
+Proof.
+  intros Hpf i j ti tj Hne Hi Hj E. pose proof (Hpf i j ti tj Hne Hi Hj) as Hp. rewrite E in Hp.
+  rewrite <- (app_nil_r (print_label (td_label tj))) in Hp at 2. rewrite has_prefix_app in Hp. discriminate.
+Qed.
+
+Lemma app_inj_len {A} : forall (a a' r r' : list A), length a = length a' -> a ++ r = a' ++ r' -> a = a'.
+Proof.
+  induction a as [|x a IH]; intros [|y a'] r r' Hl E; cbn in *; try discriminate; [reflexivity|].
+  inversion E; subst. f_equal. eapply IH; eauto.
+Qed.
+
+(* ================================================================== (5) the diamond: a; b, c depend on a; d depends on b and c *)
+From Coq Require String.
+Import String.StringSyntax.
+Local Open Scope string_scope.
+
+Definition dH (x : str) : str := x.
+Definition d_cfg : config := mkCfg LAll true false.
+Definition dL (n : String.string) : label := mkLabel (lit "p") (lit n).
+Definition d_t (n cmd out : String.string) (deps : list nat) : tdef :=
+  mkTD (dL n) (lit cmd) (lit "v") [] [mkOut OFile (lit out)] deps [] false false BNormal false.
+Definition d_s : sources :=
+  mkSrc [NTarget (d_t "a" "ca" "oa" []); NTarget (d_t "b" "cb" "ob" [0]);
+         NTarget (d_t "c" "cc" "oc" [0]); NTarget (d_t "d" "cd" "od" [1; 2])] [].
+Definition d_sel : list nat := selection d_s [3].
+Definition d_b0 : bstate := build_init d_s (mkWorld [] []) empty_cache.
+Definition d_run (l : list nat) : bstate := runl dH d_cfg d_s d_sel l d_b0.
+
+Lemma dH_inj a b : dH a = dH b -> a = b.
+Proof. exact (fun E => E). Qed.
+
+Lemma d_node i n : node_at d_s i = Some n -> i < 4.
+Proof. intro E. apply Build_c15_proofs.node_at_lt in E. exact E. Qed.
+
+Lemma d_key_prefix t dh : td_ins t = [] ->
+  exists r, pt_key dH d_s t dh = (print_label (td_label t) ++ r)%list.
+Proof.
+  intro Hi. unfold pt_key, change_key, no_inputs, state_of, dH. cbn [ts_ins]. rewrite Hi.
+  unfold encode_def, comps. cbn [concat ts_label]. eexists. reflexivity.
+Qed.
+
+Lemma d_guards : guards dH d_s.
+Proof.
+  constructor.
+  - unfold no_overwrite. vm_compute. repeat constructor; simpl; intuition discriminate.
+  - intros i j ti tj Hne Hi Hj E.
+    pose proof (d_node i _ Hi). pose proof (d_node j _ Hj).
+    destruct i as [|[|[|[|i]]]]; try lia; destruct j as [|[|[|[|j]]]]; try lia; try (exfalso; apply Hne; reflexivity);
+      inversion Hi; inversion Hj; subst; discriminate E.
+  - intros i j ti tj dh dh' Hne Hi Hj E.
+    pose proof (d_node i _ Hi). pose proof (d_node j _ Hj).
+    destruct (d_key_prefix ti dh) as [r Hr].
+    { destruct i as [|[|[|[|i]]]]; try lia; inversion Hi; reflexivity. }
+    destruct (d_key_prefix tj dh') as [r' Hr'].
+    { destruct j as [|[|[|[|j]]]]; try lia; inversion Hj; reflexivity. }
+    rewrite Hr, Hr' in E.
+    destruct i as [|[|[|[|i]]]]; try lia; destruct j as [|[|[|[|j]]]]; try lia; try (exfalso; apply Hne; reflexivity);
+      inversion Hi; inversion Hj; subst; apply app_inj_len in E; try reflexivity; discriminate E.
+  - intros i t Hi. pose proof (d_node i _ Hi).
+    destruct i as [|[|[|[|i]]]]; try lia; inversion Hi; reflexivity.
+Qed.
+
+Lemma d_wf : Build_c15_proofs.wf_src d_s.
+Proof.
+  intros i n Hi d Hd. pose proof (d_node i _ Hi).
+  destruct i as [|[|[|[|i]]]]; try lia; inversion Hi; subst; cbn in Hd; intuition lia.
+Qed.
+
+(* [0;1;2;3] and [0;2;1;3] are both compatible with the dependency relation *)
+Example d_orders :
+  dep_closed_order d_s [0; 1; 2; 3] /\ dep_closed_order d_s [0; 2; 1; 3] /\ Permutation [0; 1; 2; 3] [0; 2; 1; 3] /\
+  indep d_s 1 2.
+Proof.
+  assert (Hc : forall l, NoDup l -> topo d_s l -> length l = 4 ->
+                 (forall l1 x l2 n d, l = l1 ++ x :: l2 -> node_at d_s x = Some n -> In d (node_deps n) -> In d l1) ->
+                 dep_closed_order d_s l) by (intros; split; assumption).
+  split; [|split; [|split]].
+  - split; [repeat constructor; simpl; intuition lia|].
+    intros l1 x l2 n d El Hn Hd.
+    destruct l1 as [|a [|b [|c [|e l1]]]]; cbn in El; inversion El; subst; inversion Hn; subst; cbn in Hd;
+      try (destruct l1; discriminate); cbn; intuition lia.
+  - split; [repeat constructor; simpl; intuition lia|].
+    intros l1 x l2 n d El Hn Hd.
+    destruct l1 as [|a [|b [|c [|e l1]]]]; cbn in El; inversion El; subst; inversion Hn; subst; cbn in Hd;
+      try (destruct l1; discriminate); cbn; intuition lia.
+  - apply perm_skip, perm_swap.
+  - unfold indep. vm_compute. intuition lia.
+Qed.
+
+(* the two runs: the same statuses, the commands start in a different order, the association lists
+   differ as lists -- and are equal as maps *)
+Example d_runs_differ_as_lists :
+  map rt_status (b_rt (d_run [0; 1; 2; 3])) = [TExecuted; TExecuted; TExecuted; TExecuted] /\
+  b_exec (d_run [0; 1; 2; 3]) = [dL "a"; dL "b"; dL "c"; dL "d"] /\
+  b_exec (d_run [0; 2; 1; 3]) = [dL "a"; dL "c"; dL "b"; dL "d"] /\
+  map fst (w_ws (b_world (d_run [0; 1; 2; 3]))) <> map fst (w_ws (b_world (d_run [0; 2; 1; 3]))) /\
+  map fst (c_results (b_cache (d_run [0; 1; 2; 3]))) <> map fst (c_results (b_cache (d_run [0; 2; 1; 3]))).
+Proof. vm_compute. repeat split; try reflexivity; intro E; discriminate E. Qed.
+
+Example d_swap_nonvacuous :
+  let b := step dH d_cfg d_s d_sel d_b0 0 in
+  beq (step dH d_cfg d_s d_sel (step dH d_cfg d_s d_sel b 1) 2)
+      (step dH d_cfg d_s d_sel (step dH d_cfg d_s d_sel b 2) 1).
+Proof.
+  cbv zeta. apply (swap_guarded dH dH_inj d_cfg d_s d_sel eq_refl eq_refl _ 1 2 d_guards).
+  - apply d_orders.
+  - apply step_cc. intros k r Hr. discriminate Hr.
+Qed.
+
+Example d_topo_nonvacuous : beq (d_run [0; 1; 2; 3]) (d_run [0; 2; 1; 3]).
+Proof.
+  apply (topo_order_independent dH dH_inj d_cfg d_s d_sel eq_refl eq_refl d_guards); try apply d_orders.
+  intros k r Hr. discriminate Hr.
+Qed.
+
+Example d_build_nonvacuous :
+  breq (build dH d_cfg d_s [3] (mkWorld [] []) empty_cache)
+       (build_in_order dH d_cfg d_s [3] (mkWorld [] []) empty_cache [0; 2; 1; 3]).
+Proof.
+  apply (build_is_any_closed_order dH dH_inj d_cfg d_s [3] _ _ eq_refl eq_refl d_guards d_wf).
+  - intros k r Hr. discriminate Hr.
+  - apply perm_skip, perm_swap.
+  - apply d_orders.
+Qed.
+
+(* ================================================================== why the guards are there: refutations *)
+Lemma id_key_prefix s t dh : td_ins t = [] ->
+  exists r, pt_key dH s t dh = (print_label (td_label t) ++ r)%list.
+Proof.
+  intro Hi. unfold pt_key, change_key, no_inputs, state_of, dH. cbn [ts_ins]. rewrite Hi.
+  unfold encode_def, comps. cbn [concat ts_label]. eexists. reflexivity.
+Qed.
+
+(* guards of a snapshot made of two plain targets p:x, p:y and possibly an alias *)
+Definition r_t (n cmd out : String.string) (deps : list nat) (beh : behaviour) : tdef :=
+  mkTD (dL n) (lit cmd) (lit "v") [] [mkOut OFile (lit out)] deps [] false false beh false.
+
+Lemma two_target_guards s i j ti tj :
+  i <> j -> node_at s i = Some (NTarget ti) -> node_at s j = Some (NTarget tj) ->
+  (forall k t, node_at s k = Some (NTarget t) -> k = i \/ k = j) ->
+  NoDup (all_out_paths s) ->
+  td_ins ti = [] -> td_ins tj = [] -> outs_need_cmd ti = true -> outs_need_cmd tj = true ->
+  length (print_label (td_label ti)) = length (print_label (td_label tj)) ->
+  print_label (td_label ti) <> print_label (td_label tj) ->
+  guards dH s.
+Proof.
+  intros Hne Hi Hj Honly Hno Ii Ij Ci Cj Hlen Hlab.
+  assert (Hcase : forall a b ta tb, a <> b -> node_at s a = Some (NTarget ta) -> node_at s b = Some (NTarget tb) ->
+            (ta = ti /\ tb = tj) \/ (ta = tj /\ tb = ti)).
+  { intros a b ta tb Hab Ha Hb.
+    destruct (Honly a ta Ha) as [->|->]; destruct (Honly b tb Hb) as [->|->]; try congruence;
+      rewrite Hi in *; rewrite Hj in *; inversion Ha; inversion Hb; auto. }
+  constructor.
+  - exact Hno.
+  - intros a b ta tb Hab Ha Hb E. destruct (Hcase a b ta tb Hab Ha Hb) as [[-> ->]|[-> ->]]; congruence.
+  - intros a b ta tb dh dh' Hab Ha Hb E.
+    assert (Hk : forall dh1 dh2, pt_key dH s ti dh1 <> pt_key dH s tj dh2).
+    { intros dh1 dh2 E'. destruct (id_key_prefix s ti dh1 Ii) as [r Hr]. destruct (id_key_prefix s tj dh2 Ij) as [r' Hr'].
+      rewrite Hr, Hr' in E'. apply app_inj_len in E'; [contradiction | exact Hlen]. }
+    destruct (Hcase a b ta tb Hab Ha Hb) as [[-> ->]|[-> ->]]; [apply (Hk dh dh' E) | apply (Hk dh' dh); auto].
+  - intros a ta Ha. destruct (Honly a ta Ha) as [->|->]; [rewrite Hi in Ha | rewrite Hj in Ha]; inversion Ha; subst; assumption.
+Qed.
+
+(* (a) independence has to look through aliases: i depends on j through an alias only *)
+Definition ra_s : sources :=
+  mkSrc [NTarget (r_t "x" "cx" "ox" [] BNormal); NAlias (dL "al") 0; NTarget (r_t "y" "cy" "oy" [1] BNormal)] [].
+Definition ra_b : bstate :=
+  mkB (mkWorld [] []) empty_cache
+      [mkRt None (Some (lit "stale")) false THit; mkRt None None false THit; rt0] [] false.
+
+Lemma ra_guards : guards dH ra_s.
+Proof.
+  apply (two_target_guards ra_s 0 2 (r_t "x" "cx" "ox" [] BNormal) (r_t "y" "cy" "oy" [1] BNormal));
+    try reflexivity; try discriminate.
+  - intros k t Hk. pose proof (Build_c15_proofs.node_at_lt _ _ _ Hk) as Hlt. cbn in Hlt.
+    destruct k as [|[|[|k]]]; try lia; auto. discriminate Hk.
+  - vm_compute. repeat constructor; simpl; intuition discriminate.
+Qed.
+
+Theorem swap_direct_deps_refuted :
+  exists s sel b i j ni nj,
+    node_at s i = Some ni /\ node_at s j = Some nj /\ i <> j /\
+    ~ In i (node_deps nj) /\ ~ In j (node_deps ni) /\
+    guards dH s /\ cache_complete (b_cache b) /\
+    ~ beq (step dH d_cfg s sel (step dH d_cfg s sel b i) j) (step dH d_cfg s sel (step dH d_cfg s sel b j) i).
+Proof.
+  exists ra_s, [0; 1; 2], ra_b, 2, 0, (NTarget (r_t "y" "cy" "oy" [1] BNormal)), (NTarget (r_t "x" "cx" "ox" [] BNormal)).
+  split; [reflexivity|]. split; [reflexivity|]. split; [discriminate|].
+  split; [cbn; tauto|]. split; [cbn; intuition discriminate|].
+  split; [exact ra_guards|]. split; [intros k r Hr; discriminate Hr|].
+  intros [B1 _ _ _ _ _ _ _]. vm_compute in B1. discriminate B1.
+Qed.
+
+(* (b) fail-fast is order dependent: whichever of two independent targets fails first stops the other *)
+Definition rb_s : sources :=
+  mkSrc [NTarget (r_t "x" "cx" "ox" [] BFail); NTarget (r_t "y" "cy" "oy" [] BNormal)] [].
+
+Lemma rb_guards : guards dH rb_s.
+Proof.
+  apply (two_target_guards rb_s 0 1 (r_t "x" "cx" "ox" [] BFail) (r_t "y" "cy" "oy" [] BNormal));
+    try reflexivity; try discriminate.
+  - intros k t Hk. pose proof (Build_c15_proofs.node_at_lt _ _ _ Hk) as Hlt. cbn in Hlt.
+    destruct k as [|[|k]]; try lia; auto.
+  - vm_compute. repeat constructor; simpl; intuition discriminate.
+Qed.
+
+Theorem swap_failfast_refuted :
+  exists cfg s sel b i j,
+    cfg_mode cfg = LAll /\ cfg_failfast cfg = true /\ indep s i j /\ guards dH s /\ cache_complete (b_cache b) /\
+    ~ beq (step dH cfg s sel (step dH cfg s sel b i) j) (step dH cfg s sel (step dH cfg s sel b j) i).
+Proof.
+  exists (mkCfg LAll true true), rb_s, [0; 1], (build_init rb_s (mkWorld [] []) empty_cache), 0, 1.
+  split; [reflexivity|]. split; [reflexivity|]. split; [vm_compute; intuition lia|].
+  split; [exact rb_guards|]. split; [intros k r Hr; discriminate Hr|].
+  intros [B1 _ _ _ _ _ _ _]. vm_compute in B1. discriminate B1.
+Qed.
